@@ -203,6 +203,61 @@ def run_unit(spec_name, seed=None, rlimit=None, extra_args=(), keep_name=None, t
             res["status"] = "failed"
     return res
 
+def run_probe(spec_name, rlimit=5):
+    """vacuity probe (DESIGN 3.6): every function of the unit with its real `requires`, `ensures false` and an arbitrary
+    body; Verus must FAIL every one of them.  returns dict(status ok|vacuous|undecided, probes, refuted, vacuous[list], wall_s)"""
+    os.makedirs(BUILD, exist_ok=True)
+    spec_path = os.path.join(VERIF, "contracts", spec_name + ".spec")
+    res = {"unit": spec_name, "status": "ok", "probes": 0, "refuted": 0, "vacuous": [], "wall_s": 0.0, "note": ""}
+    t0 = time.time()
+    try:
+        u, out, rules, fns = extractor.assemble(spec_path, probe=True)
+    except LostAnchor as e:
+        res["status"] = "undecided"; res["note"] = "lost anchor: %s" % e
+        return res
+    probes = [f.name for f in fns if f.opts.get("probe")]
+    res["probes"] = len(probes)
+    unit_path = os.path.join(BUILD, spec_name + "__probe.rs")
+    open(unit_path, "w").write("\n".join(out.lines) + "\n")
+    cmd = ["verus", unit_path, "--output-json", "--triggers-mode", "silent", "--multiple-errors", "0", "--rlimit", str(rlimit), "--", "--error-format=json"]
+    res["cmd"] = " ".join(cmd)
+    p = subprocess.run(cmd, cwd=BUILD, stdout=subprocess.PIPE, stderr=subprocess.PIPE, text=True)
+    res["wall_s"] = time.time() - t0
+    failed = set()
+    other = []
+    for line in p.stderr.split("\n"):
+        line = line.strip()
+        if not line.startswith("{"): continue
+        try: d = json.loads(line)
+        except Exception: continue
+        if d.get("level") != "error" or d.get("message", "").startswith("aborting due to"): continue
+        hit = False
+        for sp in d.get("spans", []):
+            ln = sp.get("line_start")
+            o = out.map[ln - 1] if ln and 0 < ln <= len(out.map) else ("unknown",)
+            if o[0] == "clause" and any(str(t).startswith("PROBE.") for t in o[4]):
+                failed.add(o[2]); hit = True
+        if not hit:
+            # rlimit and similar are reported on the function header (a line of /repo): the probe clause follows it
+            for sp in d.get("spans", []):
+                ln = sp.get("line_start")
+                o = out.map[ln - 1] if ln and 0 < ln <= len(out.map) else ("unknown",)
+                if o[0] != "repo" or not sp.get("is_primary"): continue
+                for k in range(ln - 1, min(ln + 40, len(out.map))):
+                    o2 = out.map[k]
+                    if o2[0] == "glue" and "probe_any" in out.lines[k]: break
+                    if o2[0] == "clause" and any(str(t).startswith("PROBE.") for t in o2[4]):
+                        failed.add(o2[2]); hit = True; break
+                if hit: break
+        if not hit: other.append(d.get("message", "")[:200])
+    res["refuted"] = len([f for f in probes if f in failed])
+    res["vacuous"] = sorted(set(probes) - failed)
+    if classify(" ".join(other)) == "frontend" and other and not failed:
+        res["status"] = "undecided"; res["note"] = "probe unit did not compile: " + "; ".join(other[:3])
+    elif res["vacuous"]:
+        res["status"] = "vacuous"
+    return res
+
 TRUST_PAT = re.compile(r"\b(assume\s*\(|admit\s*\(|external_body|assume_specification|external_fn_specification|#\[verifier::external|verifier::exec_allows_no_decreases_clause|verifier::loop_isolation|unreached)")
 
 def scan_trusted(out):
@@ -232,6 +287,10 @@ def scan_trusted(out):
 def hint_tags(unit_name):
     pass
 
+if __name__ == "__main__" and sys.argv[1] == "--probe":
+    r = run_probe(sys.argv[2])
+    print(json.dumps({k: v for k, v in r.items() if k != "cmd"}, indent=1))
+    sys.exit(0)
 if __name__ == "__main__":
     r = run_unit(sys.argv[1], rlimit=(60 if sys.argv[1] == "speclib" else 30))
     print(r["status"], "verified", r["verified"], "errors", r["errors"], "wall %.1fs" % r["wall_s"], "smt %sms" % r["smt_ms"])
